@@ -212,6 +212,7 @@ def proxyLine (line : String) : String :=
   | none => "(model-parse-error)"
   | some (.list [.atom "raceprobe", _]) => "(raceprobe kept)"     -- fixed by ac1225d
   | some (.list [.atom "closeprobe", _]) => "(closeprobe complete)"   -- fixed by aebf686 (half-close)
+  | some (.list [.atom "goneprobe", _]) => "(goneprobe stopped)"   -- termination clause: a client that is gone ends the bridge
   | some sx =>
     match parsePCase sx with
     | some c => render (proxyObs c)
@@ -257,6 +258,10 @@ def proxyPred (prop caseLine obsLine : String) : String :=
     if r == "kept" then "ok" else "fail reply-before-close-lost"
   | some (.list [.atom "closeprobe", _]), some (.list [.atom "closeprobe", .atom r]) =>
     if r == "complete" then "ok" else "fail replies-cut-on-client-close"
+  | some (.list [.atom "goneprobe", .atom v]), some (.list [.atom "goneprobe", .atom r]) =>
+    if r == "stopped" then "ok"
+    else if r == "running" then "fail bridge-does-not-stop-when-client-closes-" ++ v
+    else "fail goneprobe-" ++ r
   | some cs, some (.list [.atom "obs", b, .list [.atom "exit", .atom ex], .list (.atom "direct" :: ds), log,
                           .list [.atom "upseen", ub, ud]]) =>
     match parsePCase cs, parseBridged b with
